@@ -1,80 +1,95 @@
 (* C18 -- paged results yield every row exactly once, in order.
    Model: Model/Paging.v (ResultSet + ResponseFuture paging over a scripted server), tied to cassandra/cluster.py
-   by correspondence (checks/C18.py).  `server` is ANY script: any number of pages, any page sizes incl. empty. *)
+   by correspondence (checks/C18.py).  `server` is ANY script: any number of pages, any page sizes incl. empty, and
+   any number of page requests that end in an error delivered to the application (`Fail`), anywhere. *)
 From Coq Require Import ZArith List Bool.
 From Verif Require Import Paging C18_proofs.
 Import ListNotations.
 Local Open Scope Z_scope.
 
 (* list(result_set) / `for row in result_set` terminates (fuel not exhausted) and returns the concatenation of
-   all pages' rows in server order *)
-Theorem C18_iter : forall srv, snd (iterate srv) = Some (concat (pages srv)).
-Proof. intros srv. destruct (iterate_spec srv) as [E _]. rewrite E. cbn. rewrite all_rows_concat. reflexivity. Qed.
+   all pages' rows in server order (no failing request: an exception would leave list()/the loop) *)
+Theorem C18_iter : forall srv, nfails srv = O -> snd (iterate srv) = VRows (concat (pages srv)).
+Proof. intros srv H. rewrite (proj1 (iterate_spec srv H)), all_rows_concat. reflexivity. Qed.
 Print Assumptions C18_iter.
 
+(* an application that keeps calling next() on the same iterator after failed page fetches still gets every row
+   exactly once, in order; a failed request is repeated with the SAME paging state (that of the last page received) *)
+Theorem C18_iter_across_failures : forall srv,
+  snd (iterate_retry srv) = VRows (concat (pages srv)) /\ reqs (fst (iterate_retry srv)) = expected_reqs None srv.
+Proof. intros srv. destruct (iterate_retry_spec srv) as [A B]. rewrite A, all_rows_concat. auto. Qed.
+Print Assumptions C18_iter_across_failures.
+
 (* the first request carries no paging state; request k (k >= 1) carries the state returned with page k-1 *)
-Theorem C18_states : forall srv, reqs (fst (iterate srv)) = None :: map Some (states srv).
-Proof. intros srv. exact (proj2 (iterate_spec srv)). Qed.
+Theorem C18_states : forall srv, nfails srv = O -> reqs (fst (iterate srv)) = None :: map Some (states srv).
+Proof. intros srv H. exact (proj2 (iterate_spec srv H)). Qed.
 Print Assumptions C18_states.
 
-Theorem C18_states_kth : forall srv k st, nth_error (states srv) k = Some st ->
+Theorem C18_states_kth : forall srv k st, nfails srv = O -> nth_error (states srv) k = Some st ->
   nth_error (reqs (fst (iterate srv))) (S k) = Some (Some st).
-Proof. intros srv k st H. rewrite C18_states. cbn. rewrite nth_error_map, H. reflexivity. Qed.
+Proof. intros srv k st Hn H. rewrite (C18_states srv Hn). cbn. rewrite nth_error_map, H. reflexivity. Qed.
 Print Assumptions C18_states_kth.
 
-(* for ANY access pattern (any sequence of iter/next/fetch_next_page/one/[i]/==/list calls): the requests sent are a
-   prefix of [None; st_0; st_1; ...]: states in order, and never a request after the page without paging state *)
+(* for ANY access pattern (any sequence of iter/next/fetch_next_page/one/[i]/==/list calls, failures included): the
+   requests sent are a prefix of the expected sequence (states in order, failed requests repeated with the same state),
+   and never more requests than pages + failures: nothing is requested after the page without paging state *)
 Theorem C18_stops : forall srv ops,
   let '(s0, o0) := init srv in let '(s', o) := run_state s0 ops in
-  (exists rest, reqs (o0 ++ o) ++ rest = None :: map Some (states srv))
-  /\ (length (reqs (o0 ++ o)) <= npages srv)%nat.
+  (exists rest, reqs (o0 ++ o) ++ rest = expected_reqs None srv)
+  /\ (length (reqs (o0 ++ o)) <= npages srv + nfails srv)%nat.
 Proof.
   intros srv ops. pose proof (any_pattern_prefix srv ops) as P.
   destruct (init srv) as [s0 o0]. destruct (run_state s0 ops) as [s' o].
   split; [eexists; exact P|].
-  apply (f_equal (@length _)) in P. rewrite app_length in P. cbn [length] in P.
-  rewrite !map_length, states_length in P. rewrite <- P. apply Nat.le_add_r.
+  apply (f_equal (@length _)) in P. rewrite app_length, expected_length in P. rewrite <- P. apply Nat.le_add_r.
 Qed.
 Print Assumptions C18_stops.
 
+Theorem C18_expected_nofail : forall srv, nfails srv = O -> expected_reqs None srv = None :: map Some (states srv).
+Proof. intros srv H. apply expected_nofail, H. Qed.
+Print Assumptions C18_expected_nofail.
+
 (* exactly as many requests as pages when iterating to the end *)
-Theorem C18_stops_iter : forall srv, length (reqs (fst (iterate srv))) = npages srv.
-Proof. intros srv. rewrite C18_states. cbn. rewrite map_length. apply states_length. Qed.
+Theorem C18_stops_iter : forall srv, nfails srv = O -> length (reqs (fst (iterate srv))) = npages srv.
+Proof. intros srv H. rewrite (C18_states srv H). cbn. rewrite map_length. apply states_length. Qed.
 Print Assumptions C18_stops_iter.
 
-(* materialising through the index / equality operators agrees with iteration (same rows, same requests) *)
+(* materialising through the index / equality operators agrees with iteration (same rows or same exception, same requests) *)
 Theorem C18_list_eq_iter : forall srv, materialise srv = iterate srv.
 Proof. exact materialise_spec. Qed.
 Print Assumptions C18_list_eq_iter.
 
-Theorem C18_getitem : forall srv i, let '(s0, _) := init srv in
+Theorem C18_getitem : forall srv i, nfails srv = O -> let '(s0, _) := init srv in
   exists o, snd (step s0 (OGetItem i)) = o ++ [Ret (py_getitem (concat (pages srv)) i)] /\ reqs o = map Some (states srv).
-Proof. intros srv i. rewrite <- all_rows_concat. exact (getitem_spec srv i). Qed.
+Proof. intros srv i H. rewrite <- all_rows_concat. exact (getitem_spec srv i H). Qed.
 Print Assumptions C18_getitem.
 
-Theorem C18_eq : forall srv other, let '(s0, _) := init srv in
+Theorem C18_eq : forall srv other, nfails srv = O -> let '(s0, _) := init srv in
   exists o b, snd (step s0 (OEq other)) = o ++ [Ret (VBool b)] /\ (b = true <-> concat (pages srv) = other).
 Proof.
-  intros srv other. pose proof (eq_spec srv other) as E. destruct (init srv) as [s0 o0].
+  intros srv other Hn. pose proof (eq_spec srv other Hn) as E. destruct (init srv) as [s0 o0].
   destruct E as (o & E & _). exists o, (zlist_eqb (all_rows srv) other). split; [exact E|].
   rewrite <- all_rows_concat. apply zlist_eqb_eq.
 Qed.
 Print Assumptions C18_eq.
 
-(* manual paging (current_rows; while has_more_pages: fetch_next_page(); current_rows) agrees with iteration *)
+(* manual paging (current_rows; while has_more_pages: fetch_next_page() [called again if it raised]; current_rows)
+   yields the same rows and sends the same requests as iteration -- with or without failing requests *)
 Theorem C18_manual_eq_iter : forall srv,
-  snd (manual srv) = snd (iterate srv) /\ reqs (fst (manual srv)) = reqs (fst (iterate srv)).
+  snd (manual srv) = Some (concat (pages srv)) /\ reqs (fst (manual srv)) = reqs (fst (iterate_retry srv)).
 Proof.
-  intros srv. destruct (manual_spec srv) as (o & E & R). destruct (iterate_spec srv) as [E2 R2].
-  rewrite R2, E. cbn [fst snd]. split; [|exact R]. rewrite E2. reflexivity.
+  intros srv. destruct (manual_spec srv) as (o & E & R). destruct (iterate_retry_spec srv) as [_ R2].
+  rewrite E, R2. cbn [fst snd]. rewrite all_rows_concat. auto.
 Qed.
 Print Assumptions C18_manual_eq_iter.
 
-(* non-vacuity: four pages, two of them empty (one in the middle, one last) *)
+(* non-vacuity: four pages, two of them empty, one page request failing twice *)
 Example C18_nonvacuous :
-  let srv := More [1; 2] 10 (More [] 11 (More [3] 12 (Last []))) in
-  iterate srv = ([Req None; Req (Some 10); Req (Some 11); Req (Some 12)], Some [1; 2; 3])
-  /\ manual srv = ([Req None; Req (Some 10); Req (Some 11); Req (Some 12)], Some [1; 2; 3])
-  /\ snd (run_state (fst (init srv)) [OIter; ONext; ONext; ONext; ONext]) =
-     [Ret VSelf; Ret (VRow 1); Ret (VRow 2); Req (Some 10); Req (Some 11); Ret (VRow 3); Req (Some 12); Ret VStop].
+  let srv := More [1; 2] 10 (More [] 11 (Fail (Fail (More [3] 12 (Last []))))) in
+  iterate_retry srv = ([Req None; Req (Some 10); Req (Some 11); Req (Some 11); Req (Some 11); Req (Some 12)], VRows [1; 2; 3])
+  /\ manual srv = ([Req None; Req (Some 10); Req (Some 11); Req (Some 11); Req (Some 11); Req (Some 12)], Some [1; 2; 3])
+  /\ snd (iterate srv) = VError
+  /\ snd (run_state (fst (init srv)) [OIter; ONext; ONext; ONext; ONext; ONext; ONext]) =
+     [Ret VSelf; Ret (VRow 1); Ret (VRow 2); Req (Some 10); Req (Some 11); Ret VError; Req (Some 11); Ret VError;
+      Req (Some 11); Ret (VRow 3); Req (Some 12); Ret VStop].
 Proof. repeat split. Qed.
